@@ -109,7 +109,8 @@ SD_RET = tup(NUM, DIST, opt(DIST))
 MEAN = {
     "source": "metrics/mean.py",
     "uses": ["Aggr"],
-    "section": "Variable fam : dist_family num.",
+    "section": "Variable fam : dist_family num.\n(* scipy.optimize.brentq(fn, lo, hi): an oracle *)\nVariable solver : (num -> num) -> num -> num -> num.",
+    "allow_half_defined": True,
     "records": {ROM: ROM_REC, "mean_result": MR_REC},
     "ctors": {"MeanResult": MR_REC},
     "self_types": {"RatioOfMeans": ("rec", ROM)},
@@ -127,8 +128,39 @@ MEAN = {
         {"py": "RatioOfMeans._analyze_stats", "coq": "rom_analyze_stats"},
         {"py": "RatioOfMeans.analyze_aggregates", "coq": "rom_analyze_aggregates"},
         {"py": "RatioOfMeans._power_from_stats", "coq": "rom_power_from_stats"},
+        {"raw": lambda tr: _find_boundary_emit(tr),
+         "func": ("_find_boundary", Func("find_boundary", [("fn", fun(NUM, NUM), None), ("init", NUM, None),
+                                                           ("mult", NUM, ("(nlit 10)", NUM))], NUM))},
+        {"py": "RatioOfMeans._solve_power_from_stats", "coq": "rom_solve_power_from_stats"},
     ],
 }
+
+
+def _find_boundary_emit(tr):
+    """while fn(b) > 0: b *= mult; i += 1; if i == MAX_ITER: raise  ->  recursion on the iteration counter"""
+    from py2coq import Unsupported
+    f = tr.find_def("_find_boundary")
+    src = [_ast.unparse(s) for s in f.body]
+    want = ["b = init", "i = 0",
+            "while fn(b) > 0:\n    b *= mult\n    i += 1\n    if i == MAX_ITER:\n        raise RuntimeError('Cannot find parameter boundaries. Maximum number of iterations is reached.')",
+            "return b"]
+    if src != want or [a.arg for a in f.args.args] != ["fn", "init", "mult"] or _ast.unparse(f.args.defaults[0]) != "10":
+        raise Unsupported("_find_boundary changed: " + repr(src))
+    mi = [n for n in tr.tree.body if isinstance(n, _ast.Assign) and _ast.unparse(n.targets[0]) == "MAX_ITER"]
+    if len(mi) != 1 or not isinstance(mi[0].value, _ast.Constant):
+        raise Unsupported("MAX_ITER")
+    k = mi[0].value.value
+    return (f"Definition MAX_ITER : nat := {k}.\n"
+            "(* _find_boundary: `left` = MAX_ITER - i.  None = RuntimeError (maximum number of iterations) *)\n"
+            "Fixpoint find_boundary_from (v_fn : num -> num) (v_mult : num) (left : nat) (v_b : num) : option num :=\n"
+            "  if nltb (nlit 0) (v_fn v_b) then\n"
+            "    match left with\n    | O => None\n    | S O => None            (* i + 1 = MAX_ITER: raise *)\n"
+            "    | S left' => find_boundary_from v_fn v_mult left' (v_b * v_mult)%num\n    end\n"
+            "  else Some v_b.\n"
+            "Definition find_boundary_opt (v_fn : num -> num) (v_init v_mult : num) : option num :=\n"
+            "  find_boundary_from v_fn v_mult MAX_ITER v_init.\n"
+            "Definition find_boundary (v_fn : num -> num) (v_init v_mult : num) : num :=\n"
+            "  match find_boundary_opt v_fn v_init v_mult with Some b => b | None => nraise end.\n")
 AGGR["targets"].append({"raw": lambda tr: (
     "(* Aggregates.with_zero_div: wraps every number in utils.Float/Int so that x/0 gives inf/nan instead of raising.\n"
     "   On the number line of this model (no zero divisors under the theorems' hypotheses) it is the identity;\n"
